@@ -5,6 +5,7 @@ import fabric_corr, ao_corr, conc_corr
 def explore(run, lean):
     fabric_corr.explore(run, "C13", 200 if run.tier == "quick" else 4000)
     fabric_corr.explore_faults(run, "C13", 60 if run.tier == "quick" else 1500)
+    fabric_corr.explore_subscribing_subscriber(run, "C13", 30 if run.tier == "quick" else 800)
     ao_corr.explore_fabric_stop(run, 60 if run.tier == "quick" else 1500)
     conc_corr.explore_fabric_stop(run, 40 if run.tier == "quick" else 1000)
     run.extra["rule"] = ("(a) scenarios: 1-4 subscriber queues (plain deques and active-object LockingDeques, several of them empty = equal "
